@@ -30,6 +30,7 @@ def jobs_for(tier):
         tpls = tpls + corpus.generated(quick=True, exclude={'real'})
     for t in tpls:
         jobs.append(dict(id='%s/oer' % t['id'], template=t['id'], codec='oer', tier=tier, numeric_enums=False))
+    jobs.append(dict(id='kernel/oer-int-range', kernel='oer-int-range', tier=tier, codec='oer', numeric_enums=False, W=256))
     return jobs
 
 
@@ -37,7 +38,55 @@ def beq(a, b):
     return to_z3bool(SymBytes(a) == b)
 
 
+def make_kernel_harness(job):
+    from lib import kernels_int
+
+    def harness(ctx):
+        with shimmed(C.CODEC_MODS):
+            ctx.describe = lambda m: {'state': {n: m.eval(v, model_completion=True).as_signed_long()
+                                                for n, v in ctx.eng.vars.items()}}
+            try:
+                out, ref, dec, v = kernels_int.oer_int_range(ctx, C.oer)
+            except Inconclusive:
+                raise
+            except Exception as e:
+                ctx.violation('kernel-raises', '%s: %s' % (type(e).__name__, str(e)[:100]))
+                return
+            if len(out) != len(ref):
+                ctx.violation('kernel-length-differs-from-X.696', 'library %d octets, X.696 10.2-10.4 %d' % (len(out), len(ref)))
+                return
+            if not ctx.prove('kernel-integer-equals-X.696', SymBytes(out) == ref):
+                return
+            if ctx.prove('kernel-decode(model-octets)-is-the-value', dec == v):
+                ctx.note('kernel-proved')
+    return harness
+
+
+def replay_kernel(v):
+    """INTEGER (lo..hi) of the witness through the public API against the model"""
+    s = v['witness']['vars']
+    lo, hi, val = s['lo'], s['hi'], s['v']
+    text = 'T DEFINITIONS AUTOMATIC TAGS ::= BEGIN A ::= INTEGER (%d..%d) END' % (lo, hi)
+    spec = asn1tools.compile_string(text, 'oer')
+    want = x696.encode(asn1tools.parse_string(text), 'T', 'A', val).concrete()
+    try:
+        got = bytes(spec.encode('A', val))
+    except Exception as e:
+        return True, 'INTEGER (%d..%d) value %d: encode raised %s: %s' % (lo, hi, val, type(e).__name__, str(e)[:80])
+    if got != want:
+        return True, 'INTEGER (%d..%d) value %d: library %s, X.696 %s' % (lo, hi, val, got.hex(), want.hex())
+    try:
+        back = spec.decode('A', want)
+    except Exception as e:
+        return True, 'INTEGER (%d..%d): decode(%s) raised %s' % (lo, hi, want.hex(), type(e).__name__)
+    if back != val:
+        return True, 'INTEGER (%d..%d): %s decodes to %d, not %d' % (lo, hi, want.hex(), back, val)
+    return False, 'INTEGER (%d..%d) value %d agrees with X.696 (%s)' % (lo, hi, val, got.hex())
+
+
 def make_harness(job):
+    if job.get('kernel'):
+        return make_kernel_harness(job)
     cj = Compiled(job, bounds_for(job['tier'], corpus.BY_ID[job['template']],
                                   **({'n_len': 2, 'int_abs': 1 << 33} if job['tier'] == 'quick' else {'int_abs': 1 << 65})))
     model = x696.Model(cj.parsed, cj.numeric_enums)
@@ -115,6 +164,8 @@ def make_harness(job):
 
 def replay(v):
     job = v['job']
+    if job.get('kernel'):
+        return replay_kernel(v)
     tpl = corpus.BY_ID[job['template']]
     spec = asn1tools.compile_string(tpl['text'], 'oer')
     value = unjson(v['witness']['inputs']['value'])
